@@ -1,4 +1,5 @@
 import MmtkModel.Model.Treadmill
+import MmtkModel.Model.LOS
 /-!
 # C36 — The large-object treadmill accounts for every object exactly once
 
@@ -7,6 +8,12 @@ Across any history of allocations and nursery/full collections that respects the
 sweeps exactly the objects of the collected sets that were not marked, each once, and keeps every
 marked object (`sweep_exact`); a nursery GC keeps every mature object (`nursery_gc_keeps_mature`).
 All theorems quantify over **all** histories (no bound on length or on the number of objects).
+
+Part 1 (`Mmtk.Treadmill`) is about `TreadMill` driven by the LOS protocol written out as treadmill
+calls.  Part 2 (`Mmtk.LOS`, at the end of this file) proves the same statements — and that the per
+object mark/nursery bits agree with the sets, and that an object is enqueued at most once per GC —
+for the model of `LargeObjectSpace` itself (`prepare` / `trace_object` / `release`), so that the
+treadmill-level protocol is a consequence of the code rather than an assumption.
 -/
 namespace Mmtk.Treadmill
 
@@ -664,3 +671,920 @@ example : run {} [Op.add 1 true, .flip false, .copy 1 false] = none ∧
   decide
 
 end Mmtk.Treadmill
+
+/-! # Part 2 — the REAL `LargeObjectSpace` protocol on top of the treadmill
+
+The theorems above assume the LOS protocol at the level of treadmill calls (`copy(o, flag)` with
+the right flag, at most once per object and GC).  This part *derives* that discipline from the
+code of `LargeObjectSpace` itself (`Mmtk.LOS`, Model/LOS.lean: `initialize_object_metadata`,
+`prepare`, `trace_object` with `is_in_nursery` / `test_and_mark`'s masks, `release`): histories are
+now sequences of `alloc` / `set_allocate_as_live` / `prepare f` / `trace o` (any live object, any
+number of times, any order) / `release f`.
+-/
+namespace Mmtk.LOS
+open Mmtk.Treadmill
+
+/-! ## the mark / nursery bit arithmetic of `is_in_nursery` and `test_and_mark` -/
+
+theorem ms_cases {ms : Nat} (h : ms ≤ 1) : ms = 0 ∨ ms = 1 := by omega
+
+/-- an object of the collection nursery (bits `v | NURSERY`, `v` the mark value it was allocated /
+last marked with): `is_in_nursery`, and `test_and_mark` marks it in either kind of GC unless
+(full GC only) its mark bit already has the new value. -/
+theorem bits_young (ms : Nat) (h : ms ≤ 1) :
+    ((ms ||| 2) &&& 2 == 2) = true ∧ ((ms ||| 2) &&& 3 == ms) = false ∧
+    (((1 - ms) ||| 2) &&& 2 == 2) = true ∧ (((1 - ms) ||| 2) &&& 1 == ms) = false ∧
+    ((ms ||| 2) &&& 252) ||| ms = ms ∧ (((1 - ms) ||| 2) &&& 252) ||| ms = ms ∧
+    ((ms ||| 2) &&& 1 == ms) = true := by
+  rcases ms_cases h with rfl | rfl <;> decide
+
+/-- a mature object (bits = a bare mark value). -/
+theorem bits_old (ms : Nat) (h : ms ≤ 1) :
+    (ms &&& 2 == 2) = false ∧ ((1 - ms) &&& 2 == 2) = false ∧ (ms &&& 1 == ms) = true ∧
+    (ms &&& 3 == ms) = true ∧ ((1 - ms) &&& 1 == ms) = false ∧ ((1 - ms) &&& 252) ||| ms = ms ∧
+    1 - ms ≤ 1 ∧ 1 - (1 - ms) = ms := by
+  rcases ms_cases h with rfl | rfl <;> decide
+
+/-! ## the invariant of protocol-respecting histories -/
+
+/-- Mark value carried by the not-yet-traced objects of the collection nursery. -/
+def youngMark (ph : Phase) (ms : Nat) : Nat :=
+  match ph with
+  | .gc true => 1 - ms
+  | _ => ms
+
+structure Inv (r : Run) : Prop where
+  disj : Disj r.sys.los.tm
+  alive : ∀ o, o ∈ allObjs r.sys.los.tm ↔ o ∈ r.alive
+  aliveNodup : r.alive.Nodup
+  ms : r.sys.los.markState ≤ 1
+  bA : ∀ o, o ∈ r.sys.los.tm.allocNursery → r.sys.los.bits o = r.sys.los.markState ||| 2
+  bT : ∀ o, o ∈ r.sys.los.tm.toSpace → r.sys.los.bits o = r.sys.los.markState
+  bC : ∀ o, o ∈ r.sys.los.tm.collectNursery →
+    r.sys.los.bits o = youngMark r.sys.ph r.sys.los.markState ||| 2
+  bF : ∀ o, o ∈ r.sys.los.tm.fromSpace → r.sys.los.bits o = 1 - r.sys.los.markState
+  mutC : r.sys.ph = .mutator → r.sys.los.tm.collectNursery = []
+  mutF : r.sys.ph = .mutator → r.sys.los.tm.fromSpace = []
+  gcA : ∀ f, r.sys.ph = .gc f → r.sys.los.tm.allocNursery = []
+  gcF : r.sys.ph = .gc false → r.sys.los.tm.fromSpace = []
+  gcNg : ∀ f, r.sys.ph = .gc f → r.sys.los.inNurseryGc = !f
+  gC : ∀ f, r.sys.ph = .gc f → ∀ o, o ∈ r.sys.los.tm.collectNursery ↔ o ∈ r.a0 ∧ o ∉ r.traced
+  gF : ∀ f, r.sys.ph = .gc f → ∀ o, o ∈ r.sys.los.tm.fromSpace ↔ f = true ∧ o ∈ r.t0 ∧ o ∉ r.traced
+  gT : ∀ f, r.sys.ph = .gc f → ∀ o, o ∈ r.sys.los.tm.toSpace ↔
+    (o ∈ r.t0 ∧ (f = false ∨ o ∈ r.traced)) ∨ (o ∈ r.a0 ∧ o ∈ r.traced) ∨ o ∈ r.born
+  gTr : ∀ f, r.sys.ph = .gc f → ∀ o, o ∈ r.traced → o ∈ r.sys.los.tm.toSpace
+  gEn : ∀ f, r.sys.ph = .gc f → r.enq.Nodup
+  gE : ∀ f, r.sys.ph = .gc f → ∀ o, o ∈ r.enq ↔ o ∈ r.traced ∧ (o ∈ r.a0 ∨ (f = true ∧ o ∈ r.t0))
+  cnt : ∀ o, r.allocAll.count o = r.sweptAll.count o + (if o ∈ r.alive then 1 else 0)
+
+theorem inv_init : Inv {} := by
+  refine ⟨⟨?_, ?_, ?_, ?_, ?_, ?_, ?_, ?_, ?_, ?_⟩, ?_, ?_, ?_, ?_, ?_, ?_, ?_, ?_, ?_, ?_, ?_, ?_, ?_,
+    ?_, ?_, ?_, ?_, ?_, ?_⟩ <;> simp [allObjs]
+
+/-! ### the treadmill operations keep the four sets duplicate-free and disjoint -/
+
+theorem disj_add {t : TM} (h : Disj t) {o : Obj} (ho : o ∉ allObjs t) (n : Bool) :
+    Disj (addToTreadmill t o n) := by
+  obtain ⟨nf, nt, nc, na, ft, fc, fa, tc, ta, ca⟩ := h
+  simp only [mem_allObjs, not_or] at ho
+  obtain ⟨h1, h2, h3, h4⟩ := ho
+  cases n
+  · refine ⟨nf, nodup_sinsert o nt, nc, na, ?_, fc, fa, ?_, ?_, ca⟩ <;>
+      simp only [addToTreadmill, Bool.false_eq_true, if_false, mem_sinsert] <;> grind
+  · refine ⟨nf, nt, nc, nodup_sinsert o na, ft, fc, ?_, tc, ?_, ?_⟩ <;>
+      simp only [addToTreadmill, if_true, mem_sinsert] <;> grind
+
+theorem disj_flip {t : TM} (h : Disj t) (full : Bool) : Disj (Treadmill.flip t full) := by
+  obtain ⟨nf, nt, nc, na, ft, fc, fa, tc, ta, ca⟩ := h
+  cases full
+  · refine ⟨nf, nt, na, nc, ft, fa, fc, ta, tc, ?_⟩ <;> simp only [Treadmill.flip, Bool.false_eq_true, if_false]
+    grind
+  · refine ⟨nt, nf, na, nc, ?_, ta, tc, fa, fc, ?_⟩ <;> simp only [Treadmill.flip, if_true] <;> grind
+
+theorem disj_copyC {t : TM} (h : Disj t) {o : Obj} (ho : o ∈ t.collectNursery) :
+    Disj { t with collectNursery := sremove t.collectNursery o, toSpace := sinsert t.toSpace o } := by
+  obtain ⟨nf, nt, nc, na, ft, fc, fa, tc, ta, ca⟩ := h
+  refine ⟨nf, nodup_sinsert o nt, nodup_sremove o nc, na, ?_, ?_, fa, ?_, ?_, ?_⟩ <;>
+    simp only [mem_sinsert, mem_sremove] <;> grind
+
+theorem disj_copyF {t : TM} (h : Disj t) {o : Obj} (ho : o ∈ t.fromSpace) :
+    Disj { t with fromSpace := sremove t.fromSpace o, toSpace := sinsert t.toSpace o } := by
+  obtain ⟨nf, nt, nc, na, ft, fc, fa, tc, ta, ca⟩ := h
+  refine ⟨nodup_sremove o nf, nodup_sinsert o nt, nc, na, ?_, ?_, ?_, ?_, ?_, ca⟩ <;>
+    simp only [mem_sinsert, mem_sremove] <;> grind
+
+/-! ### what `trace_object` does to an object of each set (this is where the masks matter) -/
+
+/-- An untraced object of the collection nursery: marked, nursery bit cleared, moved to the
+to-space by `copy(object, true)`, enqueued. -/
+theorem trace_young {r : Run} (hi : Inv r) {f : Bool} (hp : r.sys.ph = .gc f) {o : Obj}
+    (ho : o ∈ r.sys.los.tm.collectNursery) :
+    traceObject true r.sys.los o = some (true,
+      { r.sys.los with
+        bits := setBits r.sys.los.bits o r.sys.los.markState,
+        tm := { r.sys.los.tm with collectNursery := sremove r.sys.los.tm.collectNursery o,
+                                   toSpace := sinsert r.sys.los.tm.toSpace o } }) := by
+  have hb := hi.bC o ho
+  have hng := hi.gcNg f hp
+  have hc : r.sys.los.tm.collectNursery.contains o = true := by simpa using ho
+  cases f <;> simp only [youngMark, hp] at hb <;> rcases ms_cases hi.ms with h0 | h0 <;>
+    simp [traceObject, isInNursery, testAndMark, hb, hng, h0, NURSERY_BIT, LOS_BIT_MASK, MARK_BIT,
+      NOT_LOS_BIT_MASK, copy, ho]
+
+/-- An untraced object of the from-space (full GC): marked, moved by `copy(object, false)`,
+enqueued. -/
+theorem trace_old {r : Run} (hi : Inv r) (hp : r.sys.ph = .gc true) {o : Obj}
+    (ho : o ∈ r.sys.los.tm.fromSpace) :
+    traceObject true r.sys.los o = some (true,
+      { r.sys.los with
+        bits := setBits r.sys.los.bits o r.sys.los.markState,
+        tm := { r.sys.los.tm with fromSpace := sremove r.sys.los.tm.fromSpace o,
+                                   toSpace := sinsert r.sys.los.tm.toSpace o } }) := by
+  have hb := hi.bF o ho
+  have hng := hi.gcNg true hp
+  have hc : r.sys.los.tm.fromSpace.contains o = true := by simpa using ho
+  rcases ms_cases hi.ms with h0 | h0 <;>
+    simp [traceObject, isInNursery, testAndMark, hb, hng, h0, NURSERY_BIT, LOS_BIT_MASK, MARK_BIT,
+      NOT_LOS_BIT_MASK, copy, ho]
+
+/-- An object of the to-space (mature in a nursery GC, already traced, or allocated as live):
+nothing happens, nothing is enqueued. -/
+theorem trace_kept {r : Run} (hi : Inv r) {f : Bool} (hp : r.sys.ph = .gc f) {o : Obj}
+    (ho : o ∈ r.sys.los.tm.toSpace) :
+    traceObject true r.sys.los o = some (false, r.sys.los) := by
+  have hb := hi.bT o ho
+  have hng := hi.gcNg f hp
+  cases f <;> rcases ms_cases hi.ms with h0 | h0 <;>
+    simp [traceObject, isInNursery, testAndMark, hb, hng, h0, NURSERY_BIT, LOS_BIT_MASK, MARK_BIT]
+
+theorem mem_allObjs_add {t : TM} {o x : Obj} {n : Bool} :
+    x ∈ allObjs (addToTreadmill t o n) ↔ x = o ∨ x ∈ allObjs t := by
+  cases n <;> simp [addToTreadmill, mem_allObjs, mem_sinsert] <;> grind
+
+theorem setBits_same (b : Obj → Nat) (o : Obj) (v : Nat) : setBits b o v o = v := by simp [setBits]
+theorem setBits_other (b : Obj → Nat) {o x : Obj} (v : Nat) (h : x ≠ o) : setBits b o v x = b x := by
+  simp [setBits, h]
+
+/-- `alloc` keeps the invariant. -/
+theorem inv_alloc {r : Run} (hi : Inv r) {o : Obj} (hf : o ∉ allObjs r.sys.los.tm)
+    (hp : r.sys.ph = .mutator ∨ r.sys.los.allocateAsLive = true) :
+    Inv { r with sys := { r.sys with los := alloc r.sys.los o }, alive := o :: r.alive,
+                 allocAll := o :: r.allocAll, born := o :: r.born } := by
+  have hfa : o ∉ r.alive := fun h => hf ((hi.alive o).mpr h)
+  have hd := disj_add hi.disj hf (!r.sys.los.allocateAsLive)
+  obtain ⟨-, hal, hnd, hms, bA, bT, bC, bF, mutC, mutF, gcA, gcF, gcNg, gC, gF, gT, gTr, gEn, gE, cnt⟩ := hi
+  simp only [mem_allObjs, not_or] at hf
+  obtain ⟨f1, f2, f3, f4⟩ := hf
+  refine ⟨hd, ?_, ?_, hms, ?_, ?_, ?_, ?_, ?_, ?_, ?_, ?_, ?_, ?_, ?_, ?_, ?_, ?_, ?_, ?_⟩
+  · intro x; simp only [alloc, mem_allObjs_add, List.mem_cons, hal]
+  · exact List.nodup_cons.mpr ⟨hfa, hnd⟩
+  · intro x hx
+    cases hl : r.sys.los.allocateAsLive <;>
+      simp only [alloc, hl, addToTreadmill, Bool.not_false, Bool.not_true, if_true, Bool.false_eq_true,
+        if_false, mem_sinsert, NURSERY_BIT, setBits] at hx ⊢ <;> grind
+  · intro x hx
+    cases hl : r.sys.los.allocateAsLive <;>
+      simp only [alloc, hl, addToTreadmill, Bool.not_false, Bool.not_true, if_true, Bool.false_eq_true,
+        if_false, mem_sinsert, NURSERY_BIT, setBits] at hx ⊢ <;> grind
+  · intro x hx
+    cases hl : r.sys.los.allocateAsLive <;>
+      simp only [alloc, hl, addToTreadmill, Bool.not_false, Bool.not_true, if_true, Bool.false_eq_true,
+        if_false, mem_sinsert, NURSERY_BIT, setBits] at hx ⊢ <;> grind
+  · intro x hx
+    cases hl : r.sys.los.allocateAsLive <;>
+      simp only [alloc, hl, addToTreadmill, Bool.not_false, Bool.not_true, if_true, Bool.false_eq_true,
+        if_false, mem_sinsert, NURSERY_BIT, setBits] at hx ⊢ <;> grind
+  · intro hm
+    cases hl : r.sys.los.allocateAsLive <;>
+      simp only [alloc, hl, addToTreadmill, Bool.not_false, Bool.not_true, if_true, Bool.false_eq_true,
+        if_false] <;> exact mutC hm
+  · intro hm
+    cases hl : r.sys.los.allocateAsLive <;>
+      simp only [alloc, hl, addToTreadmill, Bool.not_false, Bool.not_true, if_true, Bool.false_eq_true,
+        if_false] <;> exact mutF hm
+  · intro f hg
+    have hl : r.sys.los.allocateAsLive = true := by
+      rcases hp with h | h
+      · simp only at hg; rw [h] at hg; cases hg
+      · exact h
+    simp only [alloc, hl, addToTreadmill, Bool.not_true, Bool.false_eq_true, if_false]
+    exact gcA f hg
+  · intro hg
+    cases hl : r.sys.los.allocateAsLive <;>
+      simp only [alloc, hl, addToTreadmill, Bool.not_false, Bool.not_true, if_true, Bool.false_eq_true,
+        if_false] <;> exact gcF hg
+  · intro f hg; exact gcNg f hg
+  · intro f hg x
+    cases hl : r.sys.los.allocateAsLive <;>
+      simp only [alloc, hl, addToTreadmill, Bool.not_false, Bool.not_true, if_true, Bool.false_eq_true,
+        if_false] <;> exact gC f hg x
+  · intro f hg x
+    cases hl : r.sys.los.allocateAsLive <;>
+      simp only [alloc, hl, addToTreadmill, Bool.not_false, Bool.not_true, if_true, Bool.false_eq_true,
+        if_false] <;> exact gF f hg x
+  · intro f hg x
+    have hl : r.sys.los.allocateAsLive = true := by
+      rcases hp with h | h
+      · simp only at hg; rw [h] at hg; cases hg
+      · exact h
+    have := gT f hg x
+    simp only [alloc, hl, addToTreadmill, Bool.not_true, Bool.false_eq_true, if_false, mem_sinsert,
+      List.mem_cons]
+    simp only at hg
+    grind
+  · intro f hg x hx
+    have := gTr f hg x hx
+    cases hl : r.sys.los.allocateAsLive <;>
+      simp only [alloc, hl, addToTreadmill, Bool.not_false, Bool.not_true, if_true, Bool.false_eq_true,
+        if_false, mem_sinsert]
+    · exact this
+    · exact Or.inr this
+  · intro f hg; exact gEn f hg
+  · intro f hg x; exact gE f hg x
+  · intro x
+    have := cnt x
+    simp only [List.count_cons, List.mem_cons]
+    by_cases hx : x = o
+    · subst hx; simp [hfa] at this ⊢; omega
+    · have h2 : (o == x) = false := by simpa using fun h => hx h.symm
+      simp [hx, h2] at this ⊢; omega
+
+/-- `set_allocate_as_live` keeps the invariant. -/
+theorem inv_setLive {r : Run} (hi : Inv r) (b : Bool) :
+    Inv { r with sys := { r.sys with los := setAllocateAsLive r.sys.los b } } := by
+  obtain ⟨h1, h2, h3, h4, h5, h6, h7, h8, h9, h10, h11, h12, h13, h14, h15, h16, h17, h18, h19, h20⟩ := hi
+  exact ⟨h1, h2, h3, h4, h5, h6, h7, h8, h9, h10, h11, h12, h13, h14, h15, h16, h17, h18, h19, h20⟩
+
+theorem mem_allObjs_flip {t : TM} {x : Obj} {full : Bool} :
+    x ∈ allObjs (Treadmill.flip t full) ↔ x ∈ allObjs t := by
+  cases full <;> simp [Treadmill.flip, mem_allObjs] <;> grind
+
+/-- `prepare` keeps the invariant (and starts the bookkeeping of the collection). -/
+theorem inv_prepare {r : Run} (hi : Inv r) (hm : r.sys.ph = .mutator) (full : Bool) :
+    Inv { r with sys := { ph := .gc full, los := prepare r.sys.los full },
+                 a0 := r.sys.los.tm.allocNursery, t0 := r.sys.los.tm.toSpace,
+                 traced := [], enq := [], born := [] } := by
+  have hd := disj_flip hi.disj full
+  obtain ⟨-, hal, hnd, hms, bA, bT, bC, bF, mutC, mutF, gcA, gcF, gcNg, gC, gF, gT, gTr, gEn, gE, cnt⟩ := hi
+  have hC := mutC hm
+  have hF := mutF hm
+  obtain ⟨-, -, -, -, -, -, o7, o8⟩ := bits_old _ hms
+  refine ⟨hd, ?_, hnd, ?_, ?_, ?_, ?_, ?_, ?_, ?_, ?_, ?_, ?_, ?_, ?_, ?_, ?_, ?_, ?_, cnt⟩
+  · intro x; simp only [prepare, mem_allObjs_flip, hal]
+  · cases full <;> simp [prepare, MARK_BIT, hms, o7]
+  · intro x hx; cases full <;> simp [prepare, Treadmill.flip, hC] at hx
+  · intro x hx
+    cases full
+    · simp only [prepare, Treadmill.flip, Bool.false_eq_true, if_false] at hx ⊢; exact bT x hx
+    · simp [prepare, Treadmill.flip, hF] at hx
+  · intro x hx
+    cases full
+    · simp only [prepare, Treadmill.flip, Bool.false_eq_true, if_false, youngMark] at hx ⊢; exact bA x hx
+    · simp only [prepare, Treadmill.flip, if_true, youngMark, MARK_BIT, o8] at hx ⊢; exact bA x hx
+  · intro x hx
+    cases full
+    · simp [prepare, Treadmill.flip, hF] at hx
+    · simp only [prepare, Treadmill.flip, if_true, MARK_BIT, o8] at hx ⊢; exact bT x hx
+  · intro h; cases h
+  · intro h; cases h
+  · intro f _; cases full <;> simp [prepare, Treadmill.flip, hC]
+  · intro h
+    have : full = false := by simpa using (Phase.gc.inj h)
+    subst this; simp [prepare, Treadmill.flip, hF]
+  · intro f h
+    have : full = f := by simpa using (Phase.gc.inj h)
+    subst this; simp [prepare]
+  · intro f _ x; cases full <;> simp [prepare, Treadmill.flip]
+  · intro f h x
+    have : full = f := by simpa using (Phase.gc.inj h)
+    subst this; cases full <;> simp [prepare, Treadmill.flip, hF]
+  · intro f h x
+    have : full = f := by simpa using (Phase.gc.inj h)
+    subst this; cases full <;> simp [prepare, Treadmill.flip, hF]
+  · intro f _ x hx; cases hx
+  · intro f _; exact List.nodup_nil
+  · intro f _ x; simp
+
+/-- first trace of an object of the collection nursery. -/
+theorem inv_trace_young {r : Run} (hi : Inv r) {f : Bool} (hp : r.sys.ph = .gc f) {o : Obj}
+    (ho : o ∈ r.sys.los.tm.collectNursery) :
+    Inv { r with
+      sys := { r.sys with los := { r.sys.los with
+        bits := setBits r.sys.los.bits o r.sys.los.markState,
+        tm := { r.sys.los.tm with collectNursery := sremove r.sys.los.tm.collectNursery o,
+                                   toSpace := sinsert r.sys.los.tm.toSpace o } } },
+      traced := o :: r.traced, enq := o :: r.enq } := by
+  have hd := disj_copyC hi.disj ho
+  obtain ⟨⟨nf, nt, nc, na, ft, fc, fa, tc, ta, ca⟩, hal, hnd, hms, bA, bT, bC, bF, mutC, mutF, gcA, gcF,
+    gcNg, gC, gF, gT, gTr, gEn, gE, cnt⟩ := hi
+  have gC' := gC f hp
+  have gF' := gF f hp
+  have gT' := gT f hp
+  have gE' := gE f hp
+  refine ⟨hd, ?_, hnd, hms, ?_, ?_, ?_, ?_, ?_, ?_, ?_, ?_, ?_, ?_, ?_, ?_, ?_, ?_, ?_, cnt⟩
+  · intro x; rw [← hal x]; simp only [mem_allObjs, mem_sinsert, mem_sremove]; grind
+  · intro x hx; simp only [setBits] at hx ⊢; grind
+  · intro x hx; simp only [setBits, mem_sinsert] at hx ⊢; grind
+  · intro x hx; simp only [setBits, mem_sremove] at hx ⊢; grind
+  · intro x hx; simp only [setBits] at hx ⊢; grind
+  · intro h; simp only at h; rw [hp] at h; cases h
+  · intro h; simp only at h; rw [hp] at h; cases h
+  · intro f' h; exact gcA f' h
+  · intro h; exact gcF h
+  · intro f' h; exact gcNg f' h
+  · intro f' h x; simp only [mem_sremove, List.mem_cons]; grind
+  · intro f' h x
+    have : f' = f := by simp only at h; rw [hp] at h; exact (Phase.gc.inj h).symm
+    subst this; simp only [List.mem_cons]; grind
+  · intro f' h x
+    have : f' = f := by simp only at h; rw [hp] at h; exact (Phase.gc.inj h).symm
+    subst this; simp only [mem_sinsert, List.mem_cons]; grind
+  · intro f' h x hx
+    have := gTr f' h
+    simp only [mem_sinsert, List.mem_cons] at hx ⊢; grind
+  · intro f' h
+    have : f' = f := by simp only at h; rw [hp] at h; exact (Phase.gc.inj h).symm
+    subst this
+    refine List.nodup_cons.mpr ⟨?_, gEn f' hp⟩
+    grind
+  · intro f' h x
+    have : f' = f := by simp only at h; rw [hp] at h; exact (Phase.gc.inj h).symm
+    subst this; simp only [List.mem_cons]; grind
+
+/-- first trace of an object of the from-space (full GC). -/
+theorem inv_trace_old {r : Run} (hi : Inv r) (hp : r.sys.ph = .gc true) {o : Obj}
+    (ho : o ∈ r.sys.los.tm.fromSpace) :
+    Inv { r with
+      sys := { r.sys with los := { r.sys.los with
+        bits := setBits r.sys.los.bits o r.sys.los.markState,
+        tm := { r.sys.los.tm with fromSpace := sremove r.sys.los.tm.fromSpace o,
+                                   toSpace := sinsert r.sys.los.tm.toSpace o } } },
+      traced := o :: r.traced, enq := o :: r.enq } := by
+  have hd := disj_copyF hi.disj ho
+  obtain ⟨⟨nf, nt, nc, na, ft, fc, fa, tc, ta, ca⟩, hal, hnd, hms, bA, bT, bC, bF, mutC, mutF, gcA, gcF,
+    gcNg, gC, gF, gT, gTr, gEn, gE, cnt⟩ := hi
+  have gC' := gC true hp
+  have gF' := gF true hp
+  have gT' := gT true hp
+  have gE' := gE true hp
+  refine ⟨hd, ?_, hnd, hms, ?_, ?_, ?_, ?_, ?_, ?_, ?_, ?_, ?_, ?_, ?_, ?_, ?_, ?_, ?_, cnt⟩
+  · intro x; rw [← hal x]; simp only [mem_allObjs, mem_sinsert, mem_sremove]; grind
+  · intro x hx; simp only [setBits] at hx ⊢; grind
+  · intro x hx; simp only [setBits, mem_sinsert] at hx ⊢; grind
+  · intro x hx; simp only [setBits] at hx ⊢; grind
+  · intro x hx; simp only [setBits, mem_sremove] at hx ⊢; grind
+  · intro h; simp only at h; rw [hp] at h; cases h
+  · intro h; simp only at h; rw [hp] at h; cases h
+  · intro f' h; exact gcA f' h
+  · intro h; simp only at h; rw [hp] at h; cases h
+  · intro f' h; exact gcNg f' h
+  · intro f' h x; simp only [List.mem_cons]; grind
+  · intro f' h x
+    have : f' = true := by simp only at h; rw [hp] at h; exact (Phase.gc.inj h).symm
+    subst this; simp only [mem_sremove, List.mem_cons]; grind
+  · intro f' h x
+    have : f' = true := by simp only at h; rw [hp] at h; exact (Phase.gc.inj h).symm
+    subst this; simp only [mem_sinsert, List.mem_cons]; grind
+  · intro f' h x hx
+    have := gTr f' h
+    simp only [mem_sinsert, List.mem_cons] at hx ⊢; grind
+  · intro f' h
+    refine List.nodup_cons.mpr ⟨?_, gEn true hp⟩
+    grind
+  · intro f' h x
+    have : f' = true := by simp only at h; rw [hp] at h; exact (Phase.gc.inj h).symm
+    subst this; simp only [List.mem_cons]; grind
+
+/-- trace of an object that is already in the to-space. -/
+theorem inv_trace_kept {r : Run} (hi : Inv r) {f : Bool} (hp : r.sys.ph = .gc f) {o : Obj}
+    (ho : o ∈ r.sys.los.tm.toSpace) :
+    Inv { r with traced := o :: r.traced } := by
+  obtain ⟨⟨nf, nt, nc, na, ft, fc, fa, tc, ta, ca⟩, hal, hnd, hms, bA, bT, bC, bF, mutC, mutF, gcA, gcF,
+    gcNg, gC, gF, gT, gTr, gEn, gE, cnt⟩ := hi
+  have gC' := gC f hp
+  have gF' := gF f hp
+  have gT' := gT f hp
+  have gE' := gE f hp
+  refine ⟨⟨nf, nt, nc, na, ft, fc, fa, tc, ta, ca⟩, hal, hnd, hms, bA, bT, bC, bF, mutC, mutF, gcA, gcF,
+    gcNg, ?_, ?_, ?_, ?_, gEn, ?_, cnt⟩
+  · intro f' h x; simp only [List.mem_cons]; grind
+  · intro f' h x
+    have : f' = f := by simp only at h; rw [hp] at h; exact (Phase.gc.inj h).symm
+    subst this; simp only [List.mem_cons]; grind
+  · intro f' h x
+    have : f' = f := by simp only at h; rw [hp] at h; exact (Phase.gc.inj h).symm
+    subst this; simp only [List.mem_cons]; grind
+  · intro f' h x hx
+    have := gTr f' h
+    simp only [List.mem_cons] at hx; grind
+  · intro f' h x
+    have : f' = f := by simp only at h; rw [hp] at h; exact (Phase.gc.inj h).symm
+    subst this; simp only [List.mem_cons]; grind
+
+/-- During a collection every object of the space is in the collection nursery, the from-space
+(full GC only) or the to-space. -/
+theorem gc_where {r : Run} (hi : Inv r) {f : Bool} (hp : r.sys.ph = .gc f) {o : Obj}
+    (ho : o ∈ allObjs r.sys.los.tm) :
+    o ∈ r.sys.los.tm.collectNursery ∨ (f = true ∧ o ∈ r.sys.los.tm.fromSpace) ∨ o ∈ r.sys.los.tm.toSpace := by
+  have hA := hi.gcA f hp
+  have hF := hi.gcF
+  rw [mem_allObjs, hA] at ho
+  cases f
+  · rw [hF hp] at ho; simp at ho; grind
+  · simp at ho ⊢; grind
+
+/-- What `release` does in a protocol-respecting history: both debug assertions hold, the swept
+objects are the collection nursery followed (full GC) by the from-space. -/
+theorem release_spec {r : Run} (hi : Inv r) {f : Bool} (hp : r.sys.ph = .gc f) :
+    release true r.sys.los f = some (r.sys.los.tm.collectNursery ++ r.sys.los.tm.fromSpace,
+      { r.sys.los with tm := { r.sys.los.tm with collectNursery := [], fromSpace := [] } }) := by
+  have hA := hi.gcA f hp
+  cases f
+  · have hF := hi.gcF hp
+    simp [release, sweepLargePages, collectNursery, collectMature, hA, hF]
+  · simp [release, sweepLargePages, collectNursery, collectMature, hA]
+
+/-- `release` keeps the invariant (and closes the bookkeeping of the collection). -/
+theorem inv_release {r : Run} (hi : Inv r) {f : Bool} (hp : r.sys.ph = .gc f) :
+    Inv { r with
+      sys := { ph := .mutator,
+               los := { r.sys.los with tm := { r.sys.los.tm with collectNursery := [], fromSpace := [] } } },
+      alive := r.alive.filter (fun x => !(r.sys.los.tm.collectNursery ++ r.sys.los.tm.fromSpace).contains x),
+      sweptAll := r.sweptAll ++ (r.sys.los.tm.collectNursery ++ r.sys.los.tm.fromSpace) } := by
+  obtain ⟨⟨nf, nt, nc, na, ft, fc, fa, tc, ta, ca⟩, hal, hnd, hms, bA, bT, bC, bF, mutC, mutF, gcA, gcF,
+    gcNg, gC, gF, gT, gTr, gEn, gE, cnt⟩ := hi
+  refine ⟨⟨List.nodup_nil, nt, List.nodup_nil, na, ?_, ?_, ?_, ?_, ta, ?_⟩, ?_, hnd.filter _, hms, bA, bT, ?_, ?_,
+    ?_, ?_, ?_, ?_, ?_, ?_, ?_, ?_, ?_, ?_, ?_, ?_⟩
+  · intro x hx; cases hx
+  · intro x hx; cases hx
+  · intro x hx; cases hx
+  · intro x _ hx; cases hx
+  · intro x hx; cases hx
+  · intro x
+    have := hal x
+    simp only [mem_allObjs, List.mem_filter, List.contains_eq_mem, List.mem_append, Bool.not_eq_true',
+      decide_eq_false_iff_not, List.not_mem_nil, false_or] at this ⊢
+    grind
+  · intro x hx; cases hx
+  · intro x hx; cases hx
+  · intro _; rfl
+  · intro _; rfl
+  · intro f' h; cases h
+  · intro h; cases h
+  · intro f' h; cases h
+  · intro f' h; cases h
+  · intro f' h; cases h
+  · intro f' h; cases h
+  · intro f' h; cases h
+  · intro f' h; cases h
+  · intro f' h; cases h
+  · intro x
+    have hc := cnt x
+    have hl : (r.sys.los.tm.collectNursery ++ r.sys.los.tm.fromSpace).Nodup := by
+      refine List.nodup_append.mpr ⟨nc, nf, ?_⟩
+      intro a ha b hb hab; subst hab; exact fc a hb ha
+    have hsub : x ∈ r.sys.los.tm.collectNursery ++ r.sys.los.tm.fromSpace → x ∈ r.alive := by
+      intro hx
+      refine (hal x).mp ?_
+      rw [mem_allObjs]; rw [List.mem_append] at hx; grind
+    simp only [List.count_append, List.mem_filter, List.contains_eq_mem, Bool.not_eq_true',
+      decide_eq_false_iff_not] at hc ⊢
+    rw [← List.count_append, hl.count]
+    by_cases hx : x ∈ r.sys.los.tm.collectNursery ++ r.sys.los.tm.fromSpace
+    · have := hsub hx; simp [hx, this] at hc ⊢; omega
+    · simp [hx] at hc ⊢; omega
+
+/-- One step preserves the invariant. -/
+theorem inv_step {r r' : Run} {op : Op} (hi : Inv r) (h : runStep r op = some r') : Inv r' := by
+  unfold runStep at h
+  cases hs : sysStep r.sys op with
+  | none => simp [hs] at h
+  | some x =>
+    obtain ⟨s', out⟩ := x
+    rw [hs] at h
+    dsimp only at h
+    unfold sysStep at hs
+    cases ha : allowed r.sys op with
+    | false => simp [ha] at hs
+    | true =>
+    simp only [ha, Bool.not_true, Bool.false_eq_true, if_false] at hs
+    cases op with
+    | alloc o =>
+      simp only [Option.some.injEq, Prod.mk.injEq] at hs
+      obtain ⟨rfl, rfl⟩ := hs
+      simp only [Option.some.injEq] at h
+      subst h
+      simp only [allowed, Bool.and_eq_true, Bool.not_eq_true', List.contains_eq_mem, decide_eq_false_iff_not,
+        Bool.or_eq_true, beq_iff_eq] at ha
+      exact inv_alloc hi ha.1 ha.2
+    | setLive b =>
+      simp only [Option.some.injEq, Prod.mk.injEq] at hs
+      obtain ⟨rfl, rfl⟩ := hs
+      simp only [Option.some.injEq] at h
+      subst h
+      exact inv_setLive hi b
+    | prepare full =>
+      simp only [Option.some.injEq, Prod.mk.injEq] at hs
+      obtain ⟨rfl, rfl⟩ := hs
+      simp only [Option.some.injEq] at h
+      subst h
+      simp only [allowed, beq_iff_eq] at ha
+      exact inv_prepare hi ha full
+    | trace o =>
+      dsimp only at hs h
+      simp only [allowed, Bool.and_eq_true, bne_iff_ne, ne_eq, List.contains_eq_mem, decide_eq_true_eq] at ha
+      obtain ⟨hne, ho⟩ := ha
+      obtain ⟨f, hp⟩ : ∃ f, r.sys.ph = .gc f := by
+        cases hph : r.sys.ph with
+        | mutator => exact absurd hph hne
+        | gc f => exact ⟨f, rfl⟩
+      rcases gc_where hi hp ho with hc | ⟨rfl, hc⟩ | hc
+      · rw [trace_young hi hp hc] at hs
+        simp only [Option.map_some, Option.some.injEq, Prod.mk.injEq] at hs
+        obtain ⟨rfl, rfl⟩ := hs
+        simp only [Option.some.injEq] at h
+        subst h
+        exact inv_trace_young hi hp hc
+      · rw [trace_old hi hp hc] at hs
+        simp only [Option.map_some, Option.some.injEq, Prod.mk.injEq] at hs
+        obtain ⟨rfl, rfl⟩ := hs
+        simp only [Option.some.injEq] at h
+        subst h
+        exact inv_trace_old hi hp hc
+      · rw [trace_kept hi hp hc] at hs
+        simp only [Option.map_some, Option.some.injEq, Prod.mk.injEq] at hs
+        obtain ⟨rfl, rfl⟩ := hs
+        simp only [Option.some.injEq] at h
+        subst h
+        exact inv_trace_kept hi hp hc
+    | release full =>
+      dsimp only at hs h
+      simp only [allowed, beq_iff_eq] at ha
+      rw [release_spec hi ha] at hs
+      simp only [Option.map_some, Option.some.injEq, Prod.mk.injEq] at hs
+      obtain ⟨rfl, rfl⟩ := hs
+      simp only [Option.some.injEq] at h
+      subst h
+      exact inv_release hi ha
+
+theorem inv_run {r r' : Run} (ops : List Op) (hi : Inv r) (h : run r ops = some r') : Inv r' := by
+  induction ops generalizing r with
+  | nil => simp only [run, Option.some.injEq] at h; subst h; exact hi
+  | cons op ops ih =>
+    simp only [run] at h
+    split at h
+    · cases h
+    · rename_i r1 h1
+      exact ih (inv_step hi h1) h
+
+/-! ## C36 on the real `LargeObjectSpace`: the theorems
+
+All of them quantify over **every** history `run {} h = some r` (any length, any objects) that
+follows the plan's protocol `Mmtk.LOS.allowed`; nothing about which treadmill set `copy` is called
+with, or how often, is assumed any more — it is derived from the code of `trace_object`,
+`is_in_nursery` and `test_and_mark`. -/
+
+/-- **(a) los_one_set.** Every object that was allocated and not yet swept occurs exactly once in
+the four treadmill sets taken together, and no other object occurs at all. -/
+theorem los_one_set (h : List Op) (r : Run) (hr : run {} h = some r) :
+    ∀ o, (allObjs r.sys.los.tm).count o = if o ∈ r.alive then 1 else 0 := by
+  intro o
+  have hi := inv_run h inv_init hr
+  have hn := (disj_iff_nodup _).mp hi.disj
+  rw [hn.count]
+  simp [hi.alive o]
+
+/-- the same, set by set, with the phase shape `release` asserts. -/
+theorem los_one_set_structured (h : List Op) (r : Run) (hr : run {} h = some r) :
+    Disj r.sys.los.tm ∧ (∀ o, o ∈ allObjs r.sys.los.tm ↔ o ∈ r.alive) ∧ r.alive.Nodup ∧
+    (r.sys.ph = .mutator → r.sys.los.tm.collectNursery = [] ∧ r.sys.los.tm.fromSpace = []) ∧
+    (∀ f, r.sys.ph = .gc f → r.sys.los.tm.allocNursery = [] ∧ (f = false → r.sys.los.tm.fromSpace = [])) := by
+  have hi := inv_run h inv_init hr
+  refine ⟨hi.disj, hi.alive, hi.aliveNodup, fun hm => ⟨hi.mutC hm, hi.mutF hm⟩, fun f hp => ⟨hi.gcA f hp, ?_⟩⟩
+  intro hf; subst hf; exact hi.gcF hp
+
+/-- **(b) los_bits.** The per-object bits always agree with the set the object is in:
+`is_in_nursery` ⇔ the object is in the allocation or the collection nursery; the mark bit equals
+`mark_state` (`is_marked` / `is_live`) ⇔ the object is in the to-space or the allocation nursery or
+— in a nursery GC, where the mark state did not flip — the collection nursery. -/
+theorem los_bits (h : List Op) (r : Run) (hr : run {} h = some r) (o : Obj) (ho : o ∈ r.alive) :
+    (isInNursery r.sys.los o = true ↔
+      o ∈ r.sys.los.tm.allocNursery ∨ o ∈ r.sys.los.tm.collectNursery) ∧
+    (isMarked r.sys.los o = true ↔
+      o ∈ r.sys.los.tm.toSpace ∨ o ∈ r.sys.los.tm.allocNursery ∨
+        (r.sys.ph = .gc false ∧ o ∈ r.sys.los.tm.collectNursery)) := by
+  have hi := inv_run h inv_init hr
+  obtain ⟨⟨nf, nt, nc, na, ft, fc, fa, tc, ta, ca⟩, hal, hnd, hms, bA, bT, bC, bF, mutC, mutF, gcA, gcF,
+    gcNg, gC, gF, gT, gTr, gEn, gE, cnt⟩ := hi
+  have hin := (hal o).mpr ho
+  rw [mem_allObjs] at hin
+  have hms2 := ms_cases hms
+  rcases hin with hF | hT | hC | hA
+  · have hb := bF o hF
+    have h1 := ft o hF; have h2 := fc o hF; have h3 := fa o hF
+    rcases hms2 with h0 | h0 <;>
+      simp [isInNursery, isMarked, testMarkBit, hb, h0, NURSERY_BIT, MARK_BIT, h1, h2, h3]
+  · have hb := bT o hT
+    have h2 := tc o hT; have h3 := ta o hT
+    rcases hms2 with h0 | h0 <;>
+      simp [isInNursery, isMarked, testMarkBit, hb, h0, NURSERY_BIT, MARK_BIT, hT, h2, h3]
+  · have hb := bC o hC
+    have h1 : o ∉ r.sys.los.tm.toSpace := fun h => tc o h hC
+    have h3 := ca o hC
+    cases hph : r.sys.ph with
+    | mutator => rw [mutC hph] at hC; cases hC
+    | gc f =>
+      cases f <;> simp only [youngMark, hph] at hb <;> rcases hms2 with h0 | h0 <;>
+        simp [isInNursery, isMarked, testMarkBit, hb, h0, NURSERY_BIT, MARK_BIT, hC, h1, h3]
+  · have hb := bA o hA
+    rcases hms2 with h0 | h0 <;>
+      simp [isInNursery, isMarked, testMarkBit, hb, h0, NURSERY_BIT, MARK_BIT, hA]
+
+/-- outside a collection: every object of the space is marked (live), and its nursery bit says
+whether it is in the allocation nursery or in the to-space. -/
+theorem los_bits_mutator (h : List Op) (r : Run) (hr : run {} h = some r) (hm : r.sys.ph = .mutator)
+    (o : Obj) (ho : o ∈ r.alive) :
+    isMarked r.sys.los o = true ∧
+    (isInNursery r.sys.los o = true ↔ o ∈ r.sys.los.tm.allocNursery) ∧
+    (isInNursery r.sys.los o = false ↔ o ∈ r.sys.los.tm.toSpace) := by
+  obtain ⟨b1, b2⟩ := los_bits h r hr o ho
+  have hi := inv_run h inv_init hr
+  have hC := hi.mutC hm
+  have hF := hi.mutF hm
+  have hin := (hi.alive o).mpr ho
+  rw [mem_allObjs, hC, hF] at hin
+  have hta := hi.disj.ta o
+  simp only [hC, List.not_mem_nil, or_false, and_false] at b1 b2
+  refine ⟨?_, b1, ?_⟩
+  · rw [b2]; simpa using hin
+  · simp at hin; grind
+
+/-- What a plan does to its large object space between `prepare` and `release`: traces (any live
+object, any number of times), allocation as live, toggling `allocate_as_live`. -/
+def isGcOp : Op → Bool
+  | .trace _ => true
+  | .alloc _ => true
+  | .setLive _ => true
+  | _ => false
+
+theorem gc_step {r r' : Run} {op : Op} (hop : isGcOp op = true) (h : runStep r op = some r') :
+    r'.sys.ph = r.sys.ph ∧ r'.a0 = r.a0 ∧ r'.t0 = r.t0 ∧ r'.sweptAll = r.sweptAll ∧
+    (∀ o, o ∈ r'.traced ↔ o ∈ r.traced ∨ op = .trace o) ∧
+    (∀ o, o ∈ r'.born ↔ o ∈ r.born ∨ op = .alloc o) := by
+  unfold runStep at h
+  cases hs : sysStep r.sys op with
+  | none => simp [hs] at h
+  | some x =>
+    obtain ⟨s', out⟩ := x
+    rw [hs] at h
+    dsimp only at h
+    unfold sysStep at hs
+    cases ha : allowed r.sys op with
+    | false => simp [ha] at hs
+    | true =>
+    simp only [ha, Bool.not_true, Bool.false_eq_true, if_false] at hs
+    cases op with
+    | alloc o =>
+      simp only [Option.some.injEq, Prod.mk.injEq] at hs
+      obtain ⟨rfl, rfl⟩ := hs
+      simp only [Option.some.injEq] at h
+      subst h
+      simp [eq_comm]
+      exact fun x => or_comm
+    | setLive b =>
+      simp only [Option.some.injEq, Prod.mk.injEq] at hs
+      obtain ⟨rfl, rfl⟩ := hs
+      simp only [Option.some.injEq] at h
+      subst h
+      simp
+    | prepare full => simp [isGcOp] at hop
+    | trace o =>
+      dsimp only at hs h
+      cases ht : traceObject true r.sys.los o with
+      | none => simp [ht] at hs
+      | some y =>
+        rw [ht] at hs
+        simp only [Option.map_some, Option.some.injEq, Prod.mk.injEq] at hs
+        obtain ⟨rfl, rfl⟩ := hs
+        simp only [Option.some.injEq] at h
+        subst h
+        simp [eq_comm]
+        exact fun x => or_comm
+    | release full => simp [isGcOp] at hop
+
+/-- the bookkeeping of a marking phase in terms of the operations it consists of. -/
+theorem gc_run (g : List Op) : ∀ (r r' : Run), (∀ op ∈ g, isGcOp op = true) → run r g = some r' →
+    r'.sys.ph = r.sys.ph ∧ r'.a0 = r.a0 ∧ r'.t0 = r.t0 ∧ r'.sweptAll = r.sweptAll ∧
+    (∀ o, o ∈ r'.traced ↔ o ∈ r.traced ∨ Op.trace o ∈ g) ∧
+    (∀ o, o ∈ r'.born ↔ o ∈ r.born ∨ Op.alloc o ∈ g) := by
+  induction g with
+  | nil =>
+    intro r r' _ h
+    simp only [run, Option.some.injEq] at h
+    subst h; simp
+  | cons op g ih =>
+    intro r r' hg h
+    simp only [run] at h
+    split at h
+    · cases h
+    · rename_i r1 h1
+      obtain ⟨a1, a2, a3, a4, a5, a6⟩ := gc_step (hg op (List.mem_cons_self ..)) h1
+      obtain ⟨b1, b2, b3, b4, b5, b6⟩ := ih r1 r' (fun x hx => hg x (List.mem_cons_of_mem _ hx)) h
+      refine ⟨b1.trans a1, b2.trans a2, b3.trans a3, b4.trans a4, ?_, ?_⟩
+      · intro o; rw [b5 o, a5 o]; simp only [List.mem_cons]; grind
+      · intro o; rw [b6 o, a6 o]; simp only [List.mem_cons]; grind
+
+/-- The outcome of one complete collection of the large object space, as seen from the state
+before `prepare` (`A0` = allocation nursery, `T0` = to-space): `g` = what happened between
+`prepare full` and `release full`, `swept` = the objects handed to `release_pages`, `enq` = the
+objects whose `trace_object` call enqueued them (in reverse order). -/
+structure GcOutcome (A0 T0 : List Obj) (full : Bool) (g : List Op) (swept enq : List Obj) (final : Run) :
+    Prop where
+  /-- (c) each swept object is released once … -/
+  swept_once : swept.Nodup
+  /-- … and the swept objects are exactly the objects of the collected sets (the nursery always,
+  the mature objects iff `full`) that were not traced since `prepare` -/
+  swept_exact : ∀ o, o ∈ swept ↔ (o ∈ A0 ∨ (full = true ∧ o ∈ T0)) ∧ Op.trace o ∉ g
+  /-- every traced object is kept: it is in the to-space afterwards, alive, and was not swept -/
+  traced_kept : ∀ o, Op.trace o ∈ g → o ∈ final.sys.los.tm.toSpace ∧ o ∈ final.alive ∧ o ∉ swept
+  /-- objects allocated (as live) during the collection are kept -/
+  born_kept : ∀ o, Op.alloc o ∈ g → o ∈ final.sys.los.tm.toSpace ∧ o ∉ swept
+  /-- (d) a nursery GC never sweeps a mature object, traced or not -/
+  mature_kept : full = false → ∀ o, o ∈ T0 → o ∈ final.sys.los.tm.toSpace ∧ o ∉ swept
+  /-- (e) an object is enqueued at most once per GC … -/
+  enq_once : enq.Nodup
+  /-- … namely exactly the traced objects of the collected sets -/
+  enq_exact : ∀ o, o ∈ enq ↔ Op.trace o ∈ g ∧ (o ∈ A0 ∨ (full = true ∧ o ∈ T0))
+  /-- the space is back in its mutator-time shape -/
+  back : final.sys.ph = .mutator ∧ final.sys.los.tm.collectNursery = [] ∧ final.sys.los.tm.fromSpace = []
+
+/-- **(c)(d)(e) los_sweep_exact.** Take any protocol-respecting history `h` ending between
+collections, then a collection: `prepare full`, any marking phase `g` (traces of any objects in
+any order with any repetitions, allocation as live), `release full`.  The release succeeds (no
+debug assertion fires) and has the `GcOutcome` above. -/
+theorem los_sweep_exact (h : List Op) (r0 : Run) (full : Bool) (g : List Op) (r1 : Run)
+    (hreach : run {} h = some r0) (hmut : r0.sys.ph = .mutator)
+    (hg : ∀ op ∈ g, isGcOp op = true)
+    (hrun : run r0 (.prepare full :: g) = some r1) :
+    ∃ swept r2, runStep r1 (.release full) = some r2 ∧ r2.sweptAll = r1.sweptAll ++ swept ∧
+      GcOutcome r0.sys.los.tm.allocNursery r0.sys.los.tm.toSpace full g swept r1.enq r2 := by
+  have hi0 := inv_run h inv_init hreach
+  simp only [run] at hrun
+  split at hrun
+  · cases hrun
+  rename_i rp hp
+  have hip := inv_step hi0 hp
+  have hpp : rp.sys.ph = .gc full ∧ rp.a0 = r0.sys.los.tm.allocNursery ∧ rp.t0 = r0.sys.los.tm.toSpace ∧
+      rp.traced = [] ∧ rp.born = [] := by
+    simp only [runStep, sysStep, allowed, hmut, beq_self_eq_true, Bool.not_true, Bool.false_eq_true,
+      if_false, Option.some.injEq] at hp
+    subst hp; simp
+  obtain ⟨p1, p2, p3, p4, p5⟩ := hpp
+  obtain ⟨q1, q2, q3, q4, q5, q6⟩ := gc_run g rp r1 hg hrun
+  have hi1 := inv_run g hip hrun
+  have hph : r1.sys.ph = .gc full := q1.trans p1
+  rw [p4] at q5; rw [p5] at q6; rw [p2] at q2; rw [p3] at q3
+  simp only [List.not_mem_nil, false_or] at q5 q6
+  have hstep : runStep r1 (.release full) = some
+      { r1 with
+        sys := { ph := .mutator,
+                 los := { r1.sys.los with tm := { r1.sys.los.tm with collectNursery := [], fromSpace := [] } } },
+        alive := r1.alive.filter (fun x => !(r1.sys.los.tm.collectNursery ++ r1.sys.los.tm.fromSpace).contains x),
+        sweptAll := r1.sweptAll ++ (r1.sys.los.tm.collectNursery ++ r1.sys.los.tm.fromSpace) } := by
+    simp [runStep, sysStep, allowed, hph, release_spec hi1 hph]
+  have hi2 := inv_step hi1 hstep
+  refine ⟨r1.sys.los.tm.collectNursery ++ r1.sys.los.tm.fromSpace, _, hstep, rfl, ?_⟩
+  obtain ⟨⟨nf, nt, nc, na, ft, fc, fa, tc, ta, ca⟩, hal, hnd, hms, bA, bT, bC, bF, mutC, mutF, gcA, gcF,
+    gcNg, gC, gF, gT, gTr, gEn, gE, cnt⟩ := hi1
+  have gC' := gC full hph
+  have gF' := gF full hph
+  have gT' := gT full hph
+  have gTr' := gTr full hph
+  have gE' := gE full hph
+  rw [q2] at gC' gT' gE'
+  rw [q3] at gF' gT' gE'
+  refine ⟨?_, ?_, ?_, ?_, ?_, gEn full hph, ?_, ⟨rfl, rfl, rfl⟩⟩
+  · refine List.nodup_append.mpr ⟨nc, nf, ?_⟩
+    intro a ha b hb hab; subst hab; exact fc a hb ha
+  · intro o; simp only [List.mem_append]; grind
+  · intro o ho
+    have hT := gTr' o ((q5 o).mpr ho)
+    refine ⟨hT, ?_, ?_⟩
+    · refine (hi2.alive o).mp ?_
+      rw [mem_allObjs]; exact Or.inr (Or.inl hT)
+    · simp only [List.mem_append]; grind
+  · intro o ho
+    have hT : o ∈ r1.sys.los.tm.toSpace := (gT' o).mpr (Or.inr (Or.inr ((q6 o).mpr ho)))
+    refine ⟨hT, ?_⟩
+    simp only [List.mem_append]; grind
+  · intro hf o ho
+    have hT : o ∈ r1.sys.los.tm.toSpace := (gT' o).mpr (Or.inl ⟨ho, Or.inl hf⟩)
+    refine ⟨hT, ?_⟩
+    simp only [List.mem_append]; grind
+  · intro o; rw [gE' o, q5 o]
+
+/-- **(d) los_nursery_gc_keeps_mature**, stated on its own: a nursery collection hands back no
+mature object — whatever was in the to-space before is still there and was not swept. -/
+theorem los_nursery_gc_keeps_mature (h : List Op) (r0 : Run) (g : List Op) (r1 : Run)
+    (hreach : run {} h = some r0) (hmut : r0.sys.ph = .mutator)
+    (hg : ∀ op ∈ g, isGcOp op = true)
+    (hrun : run r0 (.prepare false :: g) = some r1) :
+    ∃ swept r2, runStep r1 (.release false) = some r2 ∧ r2.sweptAll = r1.sweptAll ++ swept ∧
+      ∀ o, o ∈ r0.sys.los.tm.toSpace → o ∈ r2.sys.los.tm.toSpace ∧ o ∈ r2.alive ∧ o ∉ swept := by
+  obtain ⟨swept, r2, h1, h2, out⟩ := los_sweep_exact h r0 false g r1 hreach hmut hg hrun
+  refine ⟨swept, r2, h1, h2, fun o ho => ?_⟩
+  obtain ⟨a, b⟩ := out.mature_kept rfl o ho
+  have hr2 : run {} (h ++ (.prepare false :: g) ++ [.release false]) = some r2 := by
+    have run_append : ∀ (l1 l2 : List Op) (a b : Run), run a l1 = some b → run a (l1 ++ l2) = run b l2 := by
+      intro l1
+      induction l1 with
+      | nil => intro l2 a b hab; simp only [run, Option.some.injEq] at hab; subst hab; rfl
+      | cons x l1 ih =>
+        intro l2 a b hab
+        simp only [run, List.cons_append] at hab ⊢
+        split at hab
+        · cases hab
+        · rename_i a1 ha1; exact ih l2 a1 b hab
+    rw [List.append_assoc, run_append h _ {} r0 hreach, run_append _ _ r0 r1 hrun]
+    simp [run, h1]
+  have hi2 := inv_run _ inv_init hr2
+  exact ⟨a, (hi2.alive o).mp (by rw [mem_allObjs]; exact Or.inr (Or.inl a)), b⟩
+
+/-- **(c, "each once" over the whole history) los_swept_once_ever.** Counting with multiplicity
+(addresses may be reused after a sweep): every allocation is swept at most once — the number of
+times an address was allocated is the number of times it was swept, plus one iff it is alive. -/
+theorem los_swept_once_ever (h : List Op) (r : Run) (hr : run {} h = some r) :
+    ∀ o, r.allocAll.count o = r.sweptAll.count o + (if o ∈ r.alive then 1 else 0) :=
+  (inv_run h inv_init hr).cnt
+
+/-- **los_protocol_never_panics.** On a reachable state no debug assertion of the space or of the
+treadmill can fire (`TreadMill::copy`'s "object is in the source set", `release`'s "allocation
+nursery is empty"): a step is refused only because the protocol forbids it. -/
+theorem los_protocol_never_panics (h : List Op) (r : Run) (hr : run {} h = some r) (op : Op)
+    (ha : allowed r.sys op = true) : (runStep r op).isSome = true := by
+  have hi := inv_run h inv_init hr
+  cases op with
+  | alloc o => simp [runStep, sysStep, ha]
+  | setLive b => simp [runStep, sysStep, ha]
+  | prepare f => simp [runStep, sysStep, ha]
+  | trace o =>
+    have ha' := ha
+    simp only [allowed, Bool.and_eq_true, bne_iff_ne, ne_eq, List.contains_eq_mem, decide_eq_true_eq] at ha'
+    obtain ⟨hne, ho⟩ := ha'
+    obtain ⟨f, hp⟩ : ∃ f, r.sys.ph = .gc f := by
+      cases hph : r.sys.ph with
+      | mutator => exact absurd hph hne
+      | gc f => exact ⟨f, rfl⟩
+    rcases gc_where hi hp ho with hc | ⟨rfl, hc⟩ | hc
+    · simp [runStep, sysStep, ha, trace_young hi hp hc]
+    · simp [runStep, sysStep, ha, trace_old hi hp hc]
+    · simp [runStep, sysStep, ha, trace_kept hi hp hc]
+  | release f =>
+    have hp : r.sys.ph = .gc f := by simpa [allowed] using ha
+    simp [runStep, sysStep, ha, release_spec hi hp]
+
+/-! ## the hypotheses are satisfiable -/
+
+/-- What is observable of a run (the bits are a function):
+`[from_space, to_space, collect_nursery, alloc_nursery, [mark_state], bits of the objects in that
+order, alive, swept so far, enqueued in the last GC]`. -/
+def Run.view (r : Run) : List (List Nat) :=
+  [r.sys.los.tm.fromSpace, r.sys.los.tm.toSpace, r.sys.los.tm.collectNursery, r.sys.los.tm.allocNursery,
+   [r.sys.los.markState], (allObjs r.sys.los.tm).map r.sys.los.bits, r.alive, r.sweptAll, r.enq]
+
+/-- alloc → full GC (marked) → full GC (marked again) → full GC (not marked): the history on which
+a wrong mask in `test_and_mark` leaves the object in two sets.  Object 1 survives two full
+collections in the to-space with a clear nursery bit and is swept, once, by the third. -/
+example :
+    (run {} [.alloc 1, .prepare true, .trace 1, .release true]).map Run.view
+      = some [[], [1], [], [], [1], [1], [1], [], [1]] ∧
+    (run {} [.alloc 1, .prepare true, .trace 1, .release true, .prepare true, .trace 1, .trace 1, .release true]).map
+      Run.view = some [[], [1], [], [], [0], [0], [1], [], [1]] ∧
+    (run {} [.alloc 1, .prepare true, .trace 1, .release true, .prepare true, .trace 1, .release true,
+             .prepare true, .release true]).map Run.view = some [[], [], [], [], [1], [], [], [1], []] := by
+  decide
+
+/-- the hypotheses of `los_sweep_exact` on a non-trivial history: 1, 2 young, nursery GC keeps 1;
+3 young, 4 allocated as live; then a full GC that traces 3 (twice), 1 and a fresh as-live 9:
+2 was swept by the nursery GC, 4 by the full one; 1, 3, 9 survive; 3 and 1 are enqueued once. -/
+example :
+    let h := [Op.alloc 1, .alloc 2, .prepare false, .trace 1, .trace 1, .release false, .alloc 3, .setLive true,
+              .alloc 4, .setLive false]
+    let g := [Op.trace 3, .setLive true, .alloc 9, .trace 9, .trace 3, .trace 1]
+    ∃ r0 r1 r2, run {} h = some r0 ∧ r0.sys.ph = .mutator ∧ (∀ op ∈ g, isGcOp op = true) ∧
+      r0.sys.los.tm = ⟨[], [4, 1], [], [3]⟩ ∧
+      run r0 (.prepare true :: g) = some r1 ∧ r1.enq = [1, 3] ∧
+      runStep r1 (.release true) = some r2 ∧ r2.sys.los.tm = ⟨[], [1, 9, 3], [], []⟩ ∧ r2.sweptAll = [2, 4] := by
+  refine ⟨_, _, _, rfl, ?_, ?_, ?_, rfl, ?_, rfl, ?_, ?_⟩ <;> decide
+
+/-- histories that leave the protocol are rejected: trace of a swept object, trace outside a GC,
+nursery allocation during a GC, release with the other flag, allocation of a live address. -/
+example :
+    run {} [.alloc 1, .prepare true, .release true, .prepare true, .trace 1] = none ∧
+    run {} [.alloc 1, .trace 1] = none ∧
+    run {} [.alloc 1, .prepare false, .alloc 2] = none ∧
+    run {} [.alloc 1, .prepare false, .release true] = none ∧
+    run {} [.alloc 1, .alloc 1] = none := by
+  decide
+
+end Mmtk.LOS
